@@ -548,7 +548,7 @@ class VM:
         elif op == OpCode.POW:
             b = self.stack.pop()
             a = self.stack.pop()
-            self.stack.append(to_number(a) ** to_number(b))
+            self.stack.append(self._pow(to_number(a), to_number(b)))
 
         elif op == OpCode.NEG:
             a = self.stack.pop()
@@ -959,6 +959,26 @@ class VM:
             return to_string(a) + to_string(b)
         # Numeric addition
         return to_number(a) + to_number(b)
+
+    def _pow(self, base: Union[int, float], exponent: Union[int, float]) -> float:
+        """Number::exponentiate on doubles (the host ** yields big integers, complex
+        numbers, ZeroDivisionError and OverflowError, and 1 ** NaN == 1)."""
+        base, exponent = float(base), float(exponent)
+        if math.isnan(exponent):
+            return float("nan")
+        if exponent == 0:
+            return 1.0
+        if math.isinf(exponent) and abs(base) == 1:
+            return float("nan")
+        odd = math.isfinite(exponent) and math.fmod(exponent, 2) in (1.0, -1.0)
+        try:
+            return math.pow(base, exponent)
+        except OverflowError:
+            return float("-inf") if base < 0 and odd else float("inf")
+        except ValueError:
+            if base == 0:  # zero to a negative power
+                return float("-inf") if odd and math.copysign(1, base) < 0 else float("inf")
+            return float("nan")  # negative base, fractional exponent
 
     def _to_int32(self, value: JSValue) -> int:
         """Convert to 32-bit signed integer."""
